@@ -3,7 +3,7 @@ import env  # noqa: F401
 import session
 from props import session_common as sc
 
-COQ_TARGETS = ['props/C12.vo']
+COQ_TARGETS = ['props/C12.vo', 'model/YSessionSx.vo']
 TRUSTED = sc.TRUSTED
 ASSUMPTIONS = sc.ASSUMPTIONS + ['a TCP connect timeout is a connection failure delivered by the driver at any time']
 MSGS = ['open_ok', 'open_hold1', 'keepalive', 'update_ok', 'notif_cease', 'notif_version', 'bad_marker']
@@ -19,6 +19,7 @@ def check_path(kw, path):
     out = []
     double = None            # how the first overlap came about
     prev_live = 0
+    stale = False
     for i, e in enumerate(path):
         before = d.state()
         r = d.apply(e)
@@ -44,6 +45,15 @@ def check_path(kw, path):
             if o[0] == 1 and o[1] != proto:
                 out.append({'what': 'message written to connection %d while the FSM tracks %r' % (o[1], proto),
                             'events': [sc.name_of(x) for x in path[:i + 1]], 'known': None})
+        # proof obligation TQ of the single-connection invariant, as an oracle: outside a session neither
+        # the hold nor the keepalive timer is pending (their expiry in Connect re-arms the restart timer
+        # without aborting the attempt in flight, so a second attempt overlaps it)
+        if st[0] in (1, 2, 3) and (st[6][1][0] or st[6][2][0]) and not stale:
+            stale = True
+            out.append({'what': 'hold/keepalive timer of the ended session still pending in state %d after %r '
+                                '(its expiry in Connect starts a second attempt over the one in flight)'
+                                % (st[0], sc.name_of(e)),
+                        'events': [sc.name_of(x) for x in path[:i + 1]], 'known': None})
         # no connection left open and unreferenced
         for cid, c in enumerate(conns):
             if c[0] == 1 and not c[1] and cid != proto:
@@ -67,6 +77,8 @@ def late_close_scenarios():
                 # the old connection's loss arrives after `cut` steps of the new session's start-up
                 tail = [('fire', 'TIdleHold'), ('fire', 'TConnectRetry'), ('fire', 'TKeepAlive'), ('fire', 'TIdleHold')]
                 out.append(base + nxt[:cut] + [('lost', 0)] + nxt[cut:] + tail)
+                # ... and the restart timer (if the late close armed one) expires before the peer answers
+                out.append(base + nxt[:cut] + [('lost', 0), ('fire', 'TIdleHold')] + nxt[cut:] + tail)
     return out
 
 
